@@ -216,6 +216,48 @@ pub enum StackObject {
     Any,
 }
 
+impl StackObject {
+    /// Move the directly contained references out of this object, leaving it empty.
+    fn take_children(&mut self, out: &mut Vec<StackObjectRef>) {
+        match self {
+            StackObject::List(v) | StackObject::Tuple(v) => out.append(v),
+            StackObject::Dict(m) => {
+                for (k, v) in m.drain() {
+                    out.push(k);
+                    out.push(v);
+                }
+            }
+            StackObject::Set(s) | StackObject::FrozenSet(s) => out.extend(s.drain()),
+            StackObject::Instance(inst) => {
+                let leaf = StackObjectRef::new(StackObject::None);
+                out.push(std::mem::replace(&mut inst.callable, leaf.clone()));
+                out.push(std::mem::replace(&mut inst.args, leaf));
+            }
+            StackObject::Callable(inner) => {
+                out.push(std::mem::replace(
+                    inner,
+                    StackObjectRef::new(StackObject::None),
+                ));
+            }
+            _ => {}
+        }
+    }
+}
+
+/// Tear object graphs down with an explicit work list instead of recursion, so that
+/// dropping a deeply nested object cannot exhaust the native stack.
+impl Drop for StackObject {
+    fn drop(&mut self) {
+        let mut work = Vec::new();
+        self.take_children(&mut work);
+        while let Some(child) = work.pop() {
+            if let Ok(cell) = Rc::try_unwrap(child.0) {
+                cell.into_inner().take_children(&mut work);
+            }
+        }
+    }
+}
+
 impl Hash for StackObject {
     fn hash<H: std::hash::Hasher>(&self, state: &mut H) {
         match self {
